@@ -6,6 +6,6 @@ J=${1:-3}
 cd /verif/seeded
 ls -d C* | xargs -P $J -I{} bash -c '
   d={}; id=${d%%-*}; r=${d#*-r}; [ "$r" = "$d" ] && r=""
-  res=$(ROUND=$r VERIF_WORKERS=6 timeout 3000 /verif/tools/seeded_check.sh $id $id 2>&1 | grep -E "DETECTED|MISSED|apply" | head -1 | cut -c1-120)
+  res=$(ROUND=$r VERIF_WORKERS=${SW:-6} timeout 3000 /verif/tools/seeded_check.sh $id $id 2>&1 | grep -E "DETECTED|MISSED|apply" | head -1 | cut -c1-120)
   sup=$(python3 -c "import json;print(json.load(open(\"/verif/seeded/$d/meta.json\")).get(\"superseded_by_fix\",\"\"))")
   echo "$d ${sup:+[superseded by fix $sup] }$res"'
